@@ -16,7 +16,7 @@ import (
 )
 
 // names cross the TLC boundary as symbol sequences; 1=a 2=b 3=c 4=_ 5=d ...
-const symbols = "?abc_defgh"
+const symbols = "?abc_defghA"
 
 type symName []int
 
